@@ -348,6 +348,15 @@ func genFaults(rng *rand.Rand, seed int64) *Scenario {
 		}
 		// the health-check threshold is not the refresh-failure threshold (three, whatever the configuration says)
 		is.MaxFail = []int{0, 0, 1, 5, 10}[rng.Intn(5)]
+		if i == 1 && rng.Intn(4) == 0 {
+			// a health checker that flaps while the store fails: the two counts (unhealthy checks, failed refreshes) are
+			// separate, and what the one sees is no business of the other
+			is.HasHealth = true
+			is.MaxFail = 10
+			for k := 0; k < 60; k++ {
+				is.Health = append(is.Health, []int{0, 1, 1}[rng.Intn(3)])
+			}
+		}
 		// a demotion callback that takes its time (no stop call in this generator: the stop budget assumes it returns at once;
 		// a single instance: a demotion noticed by the watch loop would run the callback in that loop and suspend the candidate)
 		if n == 1 {
@@ -674,6 +683,56 @@ func genRoundEnd(rng *rand.Rand, seed int64) *Scenario {
 		sc.Steps = append(sc.Steps, Step{At: at, Kind: "extdelete", Key: "g"})
 	}
 	sc.End = at + 10*h
+	return sc
+}
+
+// genSlowSink: a log sink that takes its time over every record (up to a few hundred milliseconds, whenever no mutex of
+// the election is held): every log call in the library's straight-line code becomes a place where the rest of the
+// system moves on - terms end, records change hands, the instance is elected again.  No promise is made about the store or
+// about time; the trace is checked for what must hold in any order of events: who may write what (C01, C05), which
+// callbacks follow which (C08), the token handed to a callback (C05), contexts (C19), the transition chain (C18).
+func genSlowSink(rng *rand.Rand, seed int64) *Scenario {
+	h := []time.Duration{200 * ms, 500 * ms}[rng.Intn(2)]
+	n := 1 + rng.Intn(3)
+	sc := &Scenario{Name: "slowsink", Seed: seed, StoreTTL: 3 * h, Lat: map[int]LatSpec{0: {Min: 1 * ms, Max: h / 10}},
+		WatchMin: 1 * ms, WatchMax: h / 10, Sample: h / 2, MaxLat: 0}
+	sc.SlowAll = time.Duration(50+rng.Intn(400)) * ms
+	for i := 1; i <= n; i++ {
+		is := baseInst(i, h)
+		if rng.Intn(3) == 0 {
+			is.Promote = "block"
+		}
+		if rng.Intn(3) == 0 {
+			is.Prio = 1 + rng.Intn(2)
+			is.Takeover = rng.Intn(2) == 0
+		}
+		if rng.Intn(4) == 0 {
+			is.Val = h + time.Duration(rng.Int63n(int64(h)))
+		}
+		sc.Insts = append(sc.Insts, is)
+		sc.Steps = append(sc.Steps, Step{At: time.Duration(rng.Int63n(int64(h))), Kind: "start", Inst: i})
+	}
+	// what ends terms and starts new ones: the record removed or replaced from outside, explicit validation, stops and restarts
+	t := h
+	for k := 0; k < 4+rng.Intn(8); k++ {
+		t += time.Duration(rng.Int63n(int64(3 * h)))
+		i := 1 + rng.Intn(n)
+		switch rng.Intn(7) {
+		case 0, 1:
+			sc.Steps = append(sc.Steps, Step{At: t, Kind: "extdelete", Key: "g"})
+		case 2:
+			sc.Steps = append(sc.Steps, Step{At: t, Kind: "extput", Key: "g", Bytes: `{"id":"outsider","token":"zz","priority":0}`})
+			sc.Steps = append(sc.Steps, Step{At: t + time.Duration(rng.Int63n(int64(h))), Kind: "extdelete", Key: "g"})
+		case 3, 4:
+			sc.Steps = append(sc.Steps, Step{At: t, Kind: "validate-or-demote", Inst: i})
+		case 5:
+			sc.Steps = append(sc.Steps, Step{At: t, Kind: []string{"stop", "stopctx"}[rng.Intn(2)], Inst: i, Del: rng.Intn(2) == 0, Then: "start"})
+		default:
+			sc.Steps = append(sc.Steps, Step{At: t, Kind: "cancelstart", Inst: i})
+		}
+	}
+	sc.End = t + 8*h
+	sort.SliceStable(sc.Steps, func(a, b int) bool { return sc.Steps[a].At < sc.Steps[b].At })
 	return sc
 }
 
